@@ -232,6 +232,9 @@ def run(repo, rep):
     tr = ThreadRule(repo, rep)
     for q in ('llh2xyz', 'xyz2llh'):
         tr.check_const(repo.func('geodepy.convert', q))
+    # the object wrappers named in the property's observe_at list must hand their ellipsoid on
+    for q in ('CoordGeo.cart', 'CoordCart.geo'):
+        tr.check_function(repo.func('geodepy.coord', q), roles=('ellipsoid',))
     forward_rules(repo, rep)
     inverse_rules(repo, rep)
 
